@@ -141,4 +141,16 @@ theorem superseded_tag_absent (pre post : List ROpt) (o : ROpt)
   obtain ⟨p, hpm, hpk⟩ := hsup
   exact hp p hpm (hpk.trans hk)
 
+theorem newRouter_snoc (opts : List ROpt) (o : ROpt) :
+    newRouter (opts ++ [o]) = applyOpt (newRouter opts) o := by
+  simp [newRouter, List.foldl_append]
+
+theorem closed_form_rev (l : List ROpt) :
+    newRouter l.reverse = ⟨(lastFallback l.reverse).join, (lastFactory l.reverse).join, lastOnChange l.reverse⟩ := by
+  induction l with
+  | nil => rfl
+  | cons o os ih =>
+    rw [List.reverse_cons, newRouter_snoc, ih]
+    cases o <;> simp [applyOpt, lastFallback, lastFactory, lastOnChange, List.reverse_append]
+
 end ScVerif.C12
